@@ -165,6 +165,7 @@ def _entries(ctx, index, funcs):
     ctx.count("parameter_entry_literals", n_lit)
     ctx.count("parameter_entry_producers_from_foreign_objects", n_prod)
     ctx.count("foreign_key_removal_sites", _removals(ctx, index, funcs))
+    ctx.count("translated_key_survival_obligations", _survivors(ctx, index, funcs))
     ctx.floor("parameter entry literals", n_lit, 3)
 
 
@@ -234,6 +235,80 @@ def _removals(ctx, index, funcs):
                 line=node.lineno,
             )
     return n
+
+
+def _survivors(ctx, index, funcs):
+    """
+    C14.translate — a producer that adopts a foreign-vocabulary object and translates key K away on SOME path
+    (`del d[K]`, `d.pop(K)`, directly or in a helper it hands the entry to) treats K as not belonging to a parameter
+    entry; then K must be certainly absent at EVERY normal exit. Decided by the must-be-absent typestate of
+    sa/keystate.py (branch facts from `K in d`, short-circuit aware, loops over literal tuples unrolled, helper and
+    nested-function summaries): a K that is only removed under `elif`, behind `a or d.pop(K)`, or when another key
+    is missing survives into the interface description on the other paths.
+    Keys whose removal C14.entry already reports as truthiness-guarded are not reported twice.
+    """
+    from ..keystate import summaries, survivors
+
+    n = 0
+    for f in funcs:
+        rets = [r for r in iter_own(f.node) if isinstance(r, ast.Return) and isinstance(r.value, ast.Tuple) and len(r.value.elts) == 2 and isinstance(r.value.elts[1], ast.Name)]
+        entries = sorted({r.value.elts[1].id for r in rets if _origin(index, f, r.value.elts[1].id) is not None})
+        for x in entries:
+            keys_of_call, effect_of_call = summaries(index, f)
+            removed, must, _cleared = survivors(f.node, x, keys_of_call, effect_of_call)
+            truthy = _truthiness_guarded(f, x)
+            for k in sorted(removed - PARAM_VOCAB):
+                if k in truthy:
+                    continue
+                n += 1
+                ok = k in must
+                ctx.ob(
+                    "C14.translate",
+                    f,
+                    "foreign key {!r} of the adopted entry is gone at every exit".format(k),
+                    ok,
+                    ""
+                    if ok
+                    else "the key {!r} is translated away from the parameter entry `{}` on some paths only: on the others "
+                    "(an `elif` not taken, a short-circuited `or`, a sibling key present) it stays in the entry, a key "
+                    "outside typ/doc/default/x_typ".format(k, x),
+                    line=f.node.lineno,
+                )
+    return n
+
+
+def _truthiness_guarded(f, x):
+    """constant keys of entry x whose removal is guarded by the truthiness of the value (reported by C14.entry)"""
+    out = set()
+    par = f.mod.parents
+    for node in iter_own(f.node):
+        k = None
+        if isinstance(node, ast.Delete):
+            for t in node.targets:
+                if isinstance(t, ast.Subscript) and isinstance(t.value, ast.Name) and t.value.id == x and isinstance(t.slice, ast.Constant):
+                    k = t.slice.value
+        elif isinstance(node, ast.Call) and isinstance(node.func, ast.Attribute) and node.func.attr == "pop" and len(node.args) == 1 and isinstance(node.func.value, ast.Name) and node.func.value.id == x and isinstance(node.args[0], ast.Constant):
+            k = node.args[0].value
+        if k is None:
+            continue
+        child, p = node, par.get(node)
+        while p is not None and p is not f.node:
+            test = None
+            if isinstance(p, ast.If) and child in p.body:
+                test = p.test
+            elif isinstance(p, ast.IfExp) and child is p.body:
+                test = p.test
+            elif isinstance(p, ast.BoolOp) and isinstance(p.op, ast.And) and child in p.values[1:]:
+                test = ast.BoolOp(op=ast.And(), values=p.values[: p.values.index(child)])
+            if test is not None:
+                conj = test.values if isinstance(test, ast.BoolOp) and isinstance(test.op, ast.And) else [test]
+                rel = [c for c in conj if any(isinstance(y, ast.Name) and y.id == x for y in ast.walk(c)) and repr(k) in norm(c)]
+                if rel and not any(isinstance(c, ast.Compare) and len(c.ops) == 1 and isinstance(c.ops[0], ast.In) for c in rel):
+                    out.add(k)
+                if rel:
+                    break
+            child, p = p, par.get(p)
+    return out
 
 
 def _origin(index, f, name):
